@@ -40,6 +40,8 @@ def make(spec):
             kw["initialize"] = list(init["list"]) if dt is None else [np.dtype(dt).type(v) for v in init["list"]]
         else:
             kw["initialize"] = np.array(init["array"], dtype=dt or int)
+    if spec.get("npscalars"):
+        kw = forms.numpy_scalars(kw)
     how = spec.get("how", "ctor")
     if how == "clone" and spec["cls"] == "VoronoiFPS":
         how = "ctor"  # its **kwargs constructor hides parameters from clone (DESIGN 11.5)
@@ -245,6 +247,8 @@ def fit(est, X, y, spec, warm=False):
         y = np.asarray(y).astype(spec["yint"])
     X = forms.present(X, spec.get("xform", "C"))
     y = forms.present(y, spec.get("yform", "C"))
+    if spec.get("npscalars") and warm:
+        warm = np.bool_(True)  # a flag that comes out of a NumPy comparison
     try:
         if y is None:
             return est.fit(X, warm_start=warm) if warm else est.fit(X)
